@@ -255,14 +255,39 @@ Theorem mkfun_correct : forall vs b g, fine_sets vs ->
 Proof. exact mkfun_lemma. Qed.
 Print Assumptions mkfun_correct.
 
-(* ---- stated, not proved (the correspondence check and the reference oracle are the detection
-   mechanism for these): record sets, function sets.  EXCEPT (FunctionSubstitution) has no Coq
-   spec yet; Seq and SelectSeq are not modelled (known findings). ---- *)
-Definition recordset_full_statement : Prop :=
-  forall pairs, (forall k v, In (k, v) pairs -> fine k /\ fine v) -> NoDup (map canon (map fst pairs)) ->
-  allowed False (spec_recordset (map (fun p => norm (fst p)) pairs) (map (fun p => norm (snd p)) pairs)) (MakeRecordSet pairs).
-Definition funset_full_statement : Prop :=
-  forall a b, fine a -> fine b -> allowed False (spec_funset (norm a) (norm b)) (MakeFunctionSet a b).
+(* ---- record sets and function sets (members may be functions with domain 1..n, i.e. tuples in
+   TLA+: the result is compared in normal form) ---- *)
+Theorem recordset_correct : forall pairs,
+  (forall k v, In (k, v) pairs -> fine k /\ fine v) -> NoDup (map canon (map fst pairs)) ->
+  allowed False (spec_recordset (map (fun p => norm (fst p)) pairs) (map (fun p => norm (snd p)) pairs))
+          (MakeRecordSet pairs).
+Proof. exact recordset_lemma. Qed.
+Print Assumptions recordset_correct.
+Theorem funset_correct : forall a b, fine a -> fine b ->
+  allowed False (spec_funset (norm a) (norm b)) (MakeFunctionSet a b).
+Proof. exact funset_lemma. Qed.
+Print Assumptions funset_correct.
+
+(* ---- EXCEPT: [f EXCEPT !p1 = e1, ..., !pn = en] with nested key paths through functions and tuples.
+   Each Go record {Keys, Value} refines its spec counterpart (same keys up to canon; the closure
+   computes g of the denoted old value, failing loudly where g does).  A loud failure is tolerated
+   exactly when a key outside the domain was met (second component of spec_except). ---- *)
+Theorem except_correct : forall src isubs ssubs, fine src -> Forall2 sub_refines isubs ssubs ->
+  allowed (snd (spec_except (norm src) ssubs) = true) (fst (spec_except (norm src) ssubs))
+          (FunctionSubstitution src isubs).
+Proof. exact except_lemma. Qed.
+Print Assumptions except_correct.
+
+(* ---- Seq and SelectSeq as the code has them (known findings seq-enumerated, selectseq-unimplemented) ---- *)
+Theorem seq_refuted : ~ seq_full_statement.
+Proof. exact seq_refuted_lemma. Qed.
+Print Assumptions seq_refuted.
+Theorem seq_empty_partial : ModuleSeq (VSet []) = Ok (VSet [VTup []]).
+Proof. exact seq_empty_lemma. Qed.
+Print Assumptions seq_empty_partial.
+Theorem selectseq_refuted : forall (R : Prop) s a b, ~ allowed R s (ModuleSelectSeq a b).
+Proof. exact selectseq_refuted_lemma. Qed.
+Print Assumptions selectseq_refuted.
 
 (* ---- non-vacuity: nested, ill-typed and boundary arguments ---- *)
 Definition ex_s1 : value := VSet [VTup [VNum 1; VStr [97%N]]; VSet [VNum 2; VNum 3]; VNum (-7)].
@@ -325,4 +350,18 @@ Example c03_functions_nonvacuous :
   spec_mkfun [VSet [VNum 1; VNum 2]] (fun a => VNum 0) = SOk (VTup [VNum 0; VNum 0]) /\
   MakeFunction [VSet [VNum 1]; VSet [VBool true]] (body_of BLast) = Ok (VFun [(VTup [VNum 1; VBool true], VBool true)]) /\
   MakeFunction [] (body_of BId) = TypeErr.
+Proof. vm_compute. repeat split. Qed.
+
+Example c03_except_nonvacuous :
+  let src := VFun [(VStr [97%N], VTup [VNum 1; VNum 2]); (VStr [98%N], VNum 0)] in
+  FunctionSubstitution src [([VStr [97%N]; VNum 2], fun old => ModulePlusSymbol old (VNum 10))]
+    = Ok (VFun [(VStr [97%N], VTup [VNum 1; VNum 12]); (VStr [98%N], VNum 0)]) /\
+  spec_except src [([VStr [97%N]; VNum 2], fun old => spec_plus old (VNum 10))]
+    = (SOk (VFun [(VStr [97%N], VTup [VNum 1; VNum 12]); (VStr [98%N], VNum 0)]), false) /\
+  FunctionSubstitution src [([VStr [99%N]], fun old => Ok old)] = TypeErr /\
+  spec_except src [([VStr [99%N]], fun old => SOk old)] = (SOk src, true) /\
+  FunctionSubstitution (VNum 1) [([VNum 1], fun old => Ok old)] = TypeErr /\
+  MakeFunctionSet (VSet [VNum 1; VNum 2]) (VSet [VBool true]) = Ok (VSet [VFun [(VNum 1, VBool true); (VNum 2, VBool true)]]) /\
+  spec_funset (VSet [VNum 1; VNum 2]) (VSet [VBool true]) = SOk (VSet [VTup [VBool true; VBool true]]) /\
+  ModuleSelectSeq (VTup []) (VNum 1) = Panic.
 Proof. vm_compute. repeat split. Qed.
